@@ -12,6 +12,7 @@ from .lie_common import lib_call
 
 PI = np.pi
 SHARDS = {"quick": 10, "thorough": 16}
+REQUIRED_REACH = ['derive_attitude_rate_control', 'derive_input_velocity', 'derive_input_acro', 'derive_attitude_control', 'derive_so3_attitude_control', 'derive_se23_error']
 RULE = ("histories: H independent closed recursions advanced in lock-step for K steps (rate PID: integrator/error/derivative state fed "
         "back; velocity-mode input: yaw and position set-points fed back while the vehicle moves, teleports and resets; position "
         "loop: height integrator fed back) under random and adversarial drives (sticks pinned at +-1, sign-alternating, huge "
